@@ -6,6 +6,7 @@ package main
 import (
 	"fmt"
 	"go/types"
+	"strconv"
 	"strings"
 
 	"golang.org/x/tools/go/ssa"
@@ -52,6 +53,9 @@ func (it *Interp) callModel(fr *frame, fn *ssa.Function, args []Value) (Value, b
 			key = o.Name()
 		}
 		if m, ok := apiModels[key]; ok {
+			if key != "verifParam" && key != "verifSymbolic" {
+				it.impure("harness API call")
+			}
 			it.curFrame = fr
 			return m(it, fr, fn, args), true
 		}
@@ -79,6 +83,7 @@ func argStr(v Value) string {
 }
 
 func (it *Interp) newNondet(name, kind string, sort Sort) *Term {
+	it.impure("nondet")
 	v := mkVar(it.ex.freshName(name), sort)
 	it.ex.nondets = append(it.ex.nondets, nondetRec{Name: name, Kind: kind, term: v})
 	return v
@@ -189,6 +194,16 @@ func registerAPIModels() {
 	apiModels["verifExpectPanic"] = func(it *Interp, fr *frame, fn *ssa.Function, args []Value) Value {
 		it.mstate.expectPanic = append(it.mstate.expectPanic, argStr(args[0]))
 		return nil
+	}
+	apiModels["verifParam"] = func(it *Interp, fr *frame, fn *ssa.Function, args []Value) Value {
+		name := argStr(args[0])
+		if v, ok := it.params[name]; ok {
+			n, err := strconv.Atoi(v)
+			if err == nil {
+				return mkInt(int64(n))
+			}
+		}
+		return args[1]
 	}
 	apiModels["verifSymbolic"] = func(it *Interp, fr *frame, fn *ssa.Function, args []Value) Value {
 		return tTrue
